@@ -264,8 +264,16 @@ pub fn dispatch() -> bool {
             }
         }
         "mkindex" => {
-            let mut db =
-                rusty_leveldb::DB::open(&args[3], rusty_leveldb::Options::default()).unwrap();
+            // RBP_MKINDEX_WRITE_BUFFER=<bytes>: write with a larger memtable than the reader's default, as a node with a
+            // large -dbcache does; the index then carries a write-ahead log bigger than 4 MiB
+            let mut opts = rusty_leveldb::Options::default();
+            if let Some(n) = std::env::var("RBP_MKINDEX_WRITE_BUFFER")
+                .ok()
+                .and_then(|v| v.parse::<usize>().ok())
+            {
+                opts.write_buffer_size = n;
+            }
+            let mut db = rusty_leveldb::DB::open(&args[3], opts).unwrap();
             for line in io::stdin().lock().lines() {
                 let line = line.unwrap();
                 let mut it = line.split_whitespace();
